@@ -216,4 +216,37 @@ def beqPairs : List (Cbor × Cbor) → List (Cbor × Cbor) → Bool
   | _, _ => false
 end
 
+/-! ### Decoder resource limits
+
+The real decoder is the decoder above restricted to items within `DecOptions.MaxArrayElements`,
+`MaxMapPairs` and `MaxNestedLevels` (encoder/encoder.go; library defaults 131072 / 131072 / 32).
+The encoder has no such limits. -/
+
+structure DecLimits where
+  maxArray : Nat
+  maxMap : Nat
+  maxNest : Nat
+  deriving Repr, DecidableEq
+
+mutual
+/-- `rem` = nesting levels still allowed; arrays, maps and tags each use one. -/
+def Cbor.within (l : DecLimits) : Cbor → Nat → Bool
+  | .array xs, rem => decide (0 < rem) && decide (xs.length ≤ l.maxArray) && withinList l xs (rem - 1)
+  | .map kvs, rem => decide (0 < rem) && decide (kvs.length ≤ l.maxMap) && withinPairs l kvs (rem - 1)
+  | .tag _ v, rem => decide (0 < rem) && v.within l (rem - 1)
+  | _, _ => true
+def withinList (l : DecLimits) : List Cbor → Nat → Bool
+  | [], _ => true
+  | x :: xs, rem => x.within l rem && withinList l xs rem
+def withinPairs (l : DecLimits) : List (Cbor × Cbor) → Nat → Bool
+  | [], _ => true
+  | (k, v) :: kvs, rem => k.within l rem && (v.within l rem && withinPairs l kvs rem)
+end
+
+/-- `decMode.Unmarshal` with its limits. -/
+def decodeAllLimited (l : DecLimits) (bs : Bytes) : Option Cbor :=
+  match decodeAll bs with
+  | some c => if c.within l l.maxNest then some c else none
+  | none => none
+
 end Juno.C07
